@@ -1,15 +1,18 @@
 import Lean.Data.Json
-import Gene.Admit
+import Gene.Engine
 import Gene.Spec.Admit
+import Gene.Spec.Scan
 /-! Line-protocol driver: one JSON object per input line, one JSON answer per line.
     Runs the model's executable definitions (the very ones the theorems are about) and the spec's. -/
 open Lean Gene
 
-def jStr (j : Json) (k : String) : Except String Str := do
+abbrev E := Except String
+
+def jStr (j : Json) (k : String) : E Str := do
   let s ← j.getObjValAs? String k
   pure s.toList
 
-def jInt (j : Json) : Except String Int := do
+def jInt (j : Json) : E Int := do
   match j with
   | .num n => if n.exponent == 0 then pure n.mantissa else throw "non-integer number"
   | .str s => match s.toInt? with
@@ -17,10 +20,31 @@ def jInt (j : Json) : Except String Int := do
     | none => throw "bad int string"
   | _ => throw "int expected"
 
-def jMatchOn (j : Json) : Except String (Option MatchOnMap) := do
+def jNat (j : Json) : E Nat := do
+  let i ← jInt j
+  if i < 0 then throw "nat expected" else pure i.toNat
+
+def jOpt (j : Json) (k : String) : Option Json :=
+  match j.getObjVal? k with
+  | .ok .null => none
+  | .ok v => some v
+  | .error _ => none
+
+def jStrList (j : Json) : E (List Str) := do
+  let a ← j.getArr?
+  a.toList.mapM (fun e => do let s ← e.getStr?; pure s.toList)
+
+def sJ (s : Str) : Json := Json.str (String.ofList s)
+
+def hexNat (s : String) : Option Nat :=
+  s.toList.foldl (fun acc c => acc.bind (fun a => (M.hexVal c).map (fun d => a * 16 + d))) (some 0)
+
+/-- "absent" | "noevents" | "nullevents" | [[src,[ids]]...] -/
+def jMatchOn (j : Json) : E (Option (Option MatchOnMap)) := do
   match j with
   | .null => pure none
-  | .str _ => pure none   -- "absent" | "noevents" | "nullevents": no filter at all
+  | .str "absent" => pure none
+  | .str _ => pure (some none)
   | .arr a =>
     let l ← a.toList.mapM (fun e => do
       let k ← e.getArrVal? 0
@@ -29,17 +53,352 @@ def jMatchOn (j : Json) : Except String (Option MatchOnMap) := do
       let ids ← v.getArr?
       let ids ← ids.toList.mapM jInt
       pure (ks.toList, ids))
-    pure (some l)
-  | _ => throw "match-on: null or array expected"
+    pure (some (some l))
+  | _ => throw "match-on: null, string or array expected"
 
-def handle (j : Json) : Except String Json := do
+/-! external tables -/
+structure Tables where
+  rx : List (Str × Bool × List (Str × Bool)) := []
+  fp : List (Str × Option FVal) := []
+
+def jTables (j : Json) : E Tables := do
+  let rx ← match jOpt j "rx" with
+    | none => pure []
+    | some a => do
+      let a ← a.getArr?
+      a.toList.mapM (fun e => do
+        let p ← (← e.getArrVal? 0).getStr?
+        let ok ← (← e.getArrVal? 1).getBool?
+        let hs ← (← e.getArrVal? 2).getArr?
+        let hs ← hs.toList.mapM (fun h => do
+          let t ← (← h.getArrVal? 0).getStr?
+          let b ← (← h.getArrVal? 1).getBool?
+          pure (t.toList, b))
+        pure (p.toList, ok, hs))
+  let fp ← match jOpt j "fp" with
+    | none => pure []
+    | some a => do
+      let a ← a.getArr?
+      a.toList.mapM (fun e => do
+        let t ← (← e.getArrVal? 0).getStr?
+        let v ← e.getArrVal? 1
+        match v with
+        | .null => pure (t.toList, none)
+        | .str h => match hexNat h with
+          | some n => pure (t.toList, some (F64.ofBits n))
+          | none => throw "bad float bits"
+        | _ => throw "float bits expected")
+  pure { rx := rx, fp := fp }
+
+def jValue (j : Json) : E FieldValue := do
+  match j with
+  | .str "some" => pure .some
+  | .str "none" => pure .none
+  | _ =>
+    match jOpt j "s" with
+    | some s => do pure (.str (← s.getStr?).toList)
+    | none =>
+    match jOpt j "i" with
+    | some i => do pure (.num (.int (← jInt i)))
+    | none =>
+    match jOpt j "u" with
+    | some u => do pure (.num (.uint (← jNat u)))
+    | none =>
+    match jOpt j "f" with
+    | some f => do
+      let h ← f.getStr?
+      match hexNat h with
+      | some n => pure (.num (.float (F64.ofBits n)))
+      | none => throw "bad float bits"
+    | none =>
+    match jOpt j "b" with
+    | some b => do pure (.bool (← b.getBool?))
+    | none => throw "bad field value"
+
+def jEvent (j : Json) : E Event := do
+  let source ← jStr j "source"
+  let id ← jInt (← j.getObjVal? "id")
+  let fields ← match jOpt j "fields" with
+    | none => pure []
+    | some a => do
+      let a ← a.getArr?
+      a.toList.mapM (fun f => do
+        let segs ← jStrList (← f.getArrVal? 0)
+        let v ← jValue (← f.getArrVal? 1)
+        pure (segs, v))
+  pure { source := source, id := id, get := fun segs => fields.lookup segs }
+
+def jRType (s : String) : E RType :=
+  match s with
+  | "detection" => pure .detection
+  | "filter" => pure .filter
+  | "dependency" => pure .dependency
+  | _ => throw s!"bad type {s}"
+
+def jRule (j : Json) : E Rule := do
+  let name ← jStr j "name"
+  let rtype ← match jOpt j "type" with
+    | none => pure none
+    | some t => do pure (some (← jRType (← t.getStr?)))
+  let rmeta ← match jOpt j "meta" with
+    | none => pure none
+    | some m => do
+      let f := fun (k : String) => match jOpt m k with
+        | none => pure none
+        | some v => do pure (some (← jStrList v))
+      pure (some { tags := ← f "tags", attack := ← f "attack", authors := ← f "authors", comments := ← f "comments" : Meta })
+  let disable ← match jOpt j "params" with
+    | none => pure none
+    | some p => match jOpt p "disable" with
+      | none => pure (some none)
+      | some b => do pure (some (some (← b.getBool?)))
+  let matchOn ← match jOpt j "match_on" with
+    | none => pure none
+    | some mo => jMatchOn mo
+  let mats ← match jOpt j "matches" with
+    | none => pure none
+    | some ms => do
+      let a ← ms.getArr?
+      let l ← a.toList.mapM (fun e => do
+        let k ← (← e.getArrVal? 0).getStr?
+        let v ← (← e.getArrVal? 1).getStr?
+        pure (k.toList, v.toList))
+      pure (some l)
+  let condition ← match jOpt j "condition" with
+    | none => pure none
+    | some c => do pure (some (← c.getStr?).toList)
+  let severity ← match jOpt j "severity" with
+    | none => pure none
+    | some s => do pure (some (← jNat s))
+  let actions ← match jOpt j "actions" with
+    | none => pure none
+    | some a => do pure (some (← jStrList a))
+  pure { name := name, rtype := rtype, rmeta := rmeta, disable := disable, matchOn := matchOn, mats := mats,
+         condition := condition, severity := severity, actions := actions }
+
+/-! canonical output -/
+def sortStrs (l : List Str) : List Str := (l.map String.ofList).toArray.qsort (· < ·) |>.toList |>.eraseDups |>.map String.toList
+
+def srJson : Option ScanResult → Json
+  | none => Json.null
+  | some sr => Json.mkObj [
+      ("rules", Json.arr ((sortStrs sr.rules).map sJ).toArray),
+      ("tags", Json.arr ((sortStrs sr.tags).map sJ).toArray),
+      ("attack", Json.arr ((sortStrs sr.attack).map sJ).toArray),
+      ("actions", Json.arr ((sortStrs sr.actions).map sJ).toArray),
+      ("filtered", Json.bool sr.filtered),
+      ("severity", Json.num (Int.ofNat sr.severity))]
+
+def errKindJ : EvalErr → Json
+  | .ruleNotFound => "RuleNotFound"
+  | .fieldNotFound => "FieldNotFound"
+  | .incompatible => "IncompatibleTypes"
+  | .unknownOperand => "UnknowOperand"
+
+def scanOutJson : ScanOut → Json
+  | .panic _ => Json.str "panic"
+  | .done sr none => Json.mkObj [("ok", srJson sr)]
+  | .done sr (some (n, k)) => Json.mkObj [("err", Json.mkObj [("sr", srJson sr), ("rule", sJ n), ("kind", errKindJ k)])]
+
+def compErrJson : CompErr → Json
+  | .duplicateRule n => Json.mkObj [("dup", sJ n)]
+  | .unknownDep _ => Json.str "unkdep"
+  | .rule => Json.str "rule"
+  | .template => Json.str "template"
+  | .serde => Json.str "serde"
+  | .panic => Json.str "panic"
+
+
+/-! spec-side decoding: structured operands and formula trees (never DSL text) -/
+def jMOp (s : String) : E MOp :=
+  match s with
+  | "eq" => pure .eq | "lt" => pure .lt | "lte" => pure .lte | "gt" => pure .gt | "gte" => pure .gte
+  | "rex" => pure .rex | "flag" => pure .flag
+  | _ => throw s!"bad op {s}"
+
+def jLit (j : Json) : E S.Lit :=
+  match j with
+  | .str "none" => pure .none
+  | .str "some" => pure .some
+  | .bool b => pure (.bool b)
+  | _ => match jOpt j "t" with
+    | some t => do pure (.text (← t.getStr?).toList)
+    | none => throw "bad literal"
+
+def jOperand (j : Json) : E S.Operand := do
+  match jOpt j "test" with
+  | some t =>
+    let segs ← jStrList (← t.getObjVal? "segs")
+    let op ← jMOp (← t.getObjValAs? String "op")
+    let lit ← jLit (← t.getObjVal? "lit")
+    pure (.test segs op lit)
+  | none =>
+  match jOpt j "ind" with
+  | some a => do
+    let x ← jStrList (← a.getArrVal? 0)
+    let y ← jStrList (← a.getArrVal? 1)
+    pure (.indirect x y)
+  | none =>
+  match jOpt j "rule" with
+  | some r => do pure (.rule (← r.getStr?).toList)
+  | none => throw "bad operand"
+
+def jPfx (j : Json) : E (Option Str) :=
+  match j with
+  | .null => pure none
+  | .str s => pure (some s.toList)
+  | _ => throw "bad prefix"
+
+partial def jForm (j : Json) : E S.Form := do
+  match j with
+  | .str "tt" => pure .tt
+  | _ =>
+  match j.getObjVal? "v" with
+  | .ok v => do pure (.opd (← v.getStr?).toList)
+  | .error _ =>
+  match j.getObjVal? "not" with
+  | .ok f => do pure (.not (← jForm f))
+  | .error _ =>
+  match j.getObjVal? "and" with
+  | .ok a => do pure (.and (← jForm (← a.getArrVal? 0)) (← jForm (← a.getArrVal? 1)))
+  | .error _ =>
+  match j.getObjVal? "or" with
+  | .ok a => do pure (.or (← jForm (← a.getArrVal? 0)) (← jForm (← a.getArrVal? 1)))
+  | .error _ =>
+  match j.getObjVal? "all" with
+  | .ok p => do pure (.allOf (← jPfx p))
+  | .error _ =>
+  match j.getObjVal? "any" with
+  | .ok p => do pure (.anyOf (← jPfx p))
+  | .error _ =>
+  match j.getObjVal? "none" with
+  | .ok p => do pure (.noneOf (← jPfx p))
+  | .error _ =>
+  match j.getObjVal? "n" with
+  | .ok a => do pure (.nOf (← jNat (← a.getArrVal? 0)) (← jPfx (← a.getArrVal? 1)))
+  | .error _ => throw "bad formula"
+
+/-- the structured view of a rule: `spec` object + the metadata fields of the document -/
+def jSRule (j : Json) : E (Option S.SRule) := do
+  match jOpt j "spec" with
+  | none => pure none
+  | some sp =>
+    let r ← jRule j
+    let ops ← match jOpt sp "ops" with
+      | none => pure []
+      | some a => do
+        let a ← a.getArr?
+        a.toList.mapM (fun e => do
+          let k ← (← e.getArrVal? 0).getStr?
+          let o ← jOperand (← e.getArrVal? 1)
+          pure (k.toList, o))
+    let cond ← match jOpt sp "cond" with
+      | none => pure S.Form.tt
+      | some c => jForm c
+    pure (some { name := r.name, rtype := r.rtype.getD .detection, matchOn := r.matchOn.bind id,
+                 ops := ops, cond := cond, severity := r.severity.getD 0,
+                 tags := (r.rmeta.bind (·.tags)).getD [], attack := (r.rmeta.bind (·.attack)).getD [],
+                 actions := r.actions.getD [] })
+
+def specOutJson (o : S.Outcome) : Json :=
+  Json.mkObj [("sr", srJson o.result), ("failing", Json.arr ((sortStrs o.failing).map sJ).toArray)]
+
+/-- structured validity: what must be rejected at load / compile time -/
+def specLoad (x : Ext) (rules : List (S.SRule × Bool)) : Option Json :=
+  -- duplicates among enabled rules are load errors (first duplicate in order)
+  let rec dup : List (S.SRule × Bool) → List Str → Option Str
+    | [], _ => none
+    | (r, dis) :: rs, seen => if dis then dup rs seen else if seen.contains r.name then some r.name else dup rs (r.name :: seen)
+  match dup rules [] with
+  | some n => some (Json.mkObj [("load", Json.mkObj [("dup", sJ n)])])
+  | none =>
+    let en := (rules.filter (fun p => !p.2)).map Prod.fst
+    let rec chk : List S.SRule → List Str → Option Json
+      | [], _ => none
+      | r :: rs, seen =>
+        let opsOk := r.ops.all (fun o => startsWith o.1 ['$'] && (match o.2 with
+          | .test _ op lit => S.litOk x op lit
+          | _ => true))
+        let attackOk := r.attack.all M.attackIdOk
+        if !(opsOk && attackOk) then some (Json.mkObj [("compile", Json.str "rule")])
+        else if (S.directDeps r).any (fun d => !seen.contains d) then some (Json.mkObj [("compile", Json.str "unkdep")])
+        else chk rs (r.name :: seen)
+    chk en []
+
+/-- load template documents, then rule documents, build the engine, scan the events in order -/
+def runScenario (x : Ext) (tdocs : List Tpls) (rules : List Rule) (events : List Event) : Json :=
+  let c0 : Compiler := {}
+  let rec loadT : List Tpls → Compiler → Except CompErr Compiler
+    | [], c => .ok c
+    | t :: ts, c => match M.Compiler.loadTemplates c t with
+      | .ok c' => loadT ts c'
+      | .error e => .error e
+  let rec loadR : List Rule → Compiler → Except CompErr Compiler
+    | [], c => .ok c
+    | r :: rs, c => match M.Compiler.load c r with
+      | .ok c' => loadR rs c'
+      | .error e => .error e
+  match loadT tdocs c0 with
+  | .error e => Json.mkObj [("load", compErrJson e)]
+  | .ok c1 =>
+    match loadR rules c1 with
+    | .error e => Json.mkObj [("load", compErrJson e)]
+    | .ok c2 =>
+      match M.Engine.ofCompiler x c2 with
+      | .error e => Json.mkObj [("compile", compErrJson e)]
+      | .ok eng =>
+        let rec go : List Event → Engine → List Json → List Json
+          | [], _, acc => acc.reverse
+          | ev :: evs, e, acc =>
+            let (e', out) := M.Engine.scan x e ev
+            go evs e' (scanOutJson out :: acc)
+        Json.mkObj [("scans", Json.arr (go events eng []).toArray)]
+
+def handle (j : Json) : E Json := do
   let op ← j.getObjValAs? String "op"
   match op with
   | "admits" =>
     let mo ← jMatchOn (← j.getObjVal? "mo")
+    let mo := mo.bind id
     let src ← jStr j "src"
     let id ← jInt (← j.getObjVal? "id")
     pure (Json.mkObj [("model", Json.bool (M.admits mo src id)), ("spec", Json.bool (S.admits mo src id))])
+  | "scenario" =>
+    let t ← match jOpt j "ext" with
+      | none => pure ({} : Tables)
+      | some e => jTables e
+    let x : Ext :=
+      { fparse := fun s => (t.fp.lookup s).getD none
+        rxOk := fun p => match t.rx.lookup p with
+          | some (ok, _) => ok
+          | none => false
+        rxMatch := fun p h => match t.rx.lookup p with
+          | some (_, hs) => (hs.lookup h).getD false
+          | none => false }
+    let tdocs ← match jOpt j "templates" with
+      | none => pure []
+      | some a => do
+        let a ← a.getArr?
+        a.toList.mapM (fun d => do
+          let d ← d.getArr?
+          d.toList.mapM (fun e => do
+            let k ← (← e.getArrVal? 0).getStr?
+            let v ← (← e.getArrVal? 1).getStr?
+            pure (k.toList, v.toList)))
+    let rulesJ := (← (← j.getObjVal? "rules").getArr?).toList
+    let rules ← rulesJ.mapM jRule
+    let events ← (← (← j.getObjVal? "events").getArr?).toList.mapM jEvent
+    let srules ← rulesJ.mapM jSRule
+    let model := runScenario x tdocs rules events
+    if srules.all Option.isSome && !srules.isEmpty then
+      let sr := (srules.filterMap id).zip (rules.map M.Rule.isDisabled)
+      let spec := match specLoad x sr with
+        | some e => e
+        | none =>
+          let en := (sr.filter (fun p => !p.2)).map Prod.fst
+          Json.mkObj [("scans", Json.arr (events.map (fun ev => specOutJson (S.scan x ev en))).toArray)]
+      pure (Json.mkObj [("model", model), ("spec", spec)])
+    else pure (Json.mkObj [("model", model)])
   | _ => throw s!"unknown op {op}"
 
 partial def loop (hin : IO.FS.Stream) (hout : IO.FS.Stream) : IO Unit := do
